@@ -21,6 +21,11 @@ PROPS = {
     },
 }
 
+PROPS["DBG"] = {
+    "claim": "debug probes", "harnesses": [H("h_probe_tree"), H("h_probe_tostring"), H("h_probe_parse")],
+    "bounds": {"quick": "-", "thorough": "-"}, "outside": "", "assumptions": [],
+}
+
 _WIP = "check not built yet (work in progress; will be claimed or given its final reason before the end)"
 NOT_APPLICABLE = {("C%02d" % i): _WIP for i in range(1, 21)}
 NOT_APPLICABLE["C16"] = ("every clause compares whole outputs of generator-driven (genawaiter coroutine) serialisation "
